@@ -165,9 +165,45 @@ def rule_wrapper_ctor(ctx):
         # first_key = n ? *a : 0
         fk = [i for i in w.all_ids() if w.n(i)['c'] == 'BinaryOperator' and w.n(i)['op'] == '=' and w.term(w.n(i)['ch'][0], inline=False) == ('field', 'first_key', THIS)]
         okf = False
-        if fk:
+        fk_unknown = False
+        A_, N_ = ('param', w.params[0]['name']), ('param', w.params[1]['name'])
+        if len(fk) == 1:
             t = strip_cast(w.term(w.n(fk[0])['ch'][1], inline=True))
-            okf = t[0] == 'cond' and strip_cast(t[2]) == ('deref', ('param', w.params[0]['name'])) and any(s == ('param', w.params[1]['name']) for s in subterms(t[1]))
+            okf = t[0] == 'cond' and strip_cast(t[2]) == ('deref', A_) and any(s == N_ for s in subterms(t[1]))
+            if not okf and t != ('deref', A_):
+                fk_unknown = True
+        elif len(fk) == 2:
+            # if (n == 0) first_key = 0; else first_key = *a;   (either order, either spelling of the test)
+            from cfg import graph as _graph
+            g_ = _graph(w)
+
+            def n_is_zero(node):
+                """True / False: the assignment executes only when n == 0 / only when n != 0; None: unknown"""
+                for (b, lab) in g_.transitive_control_deps(w.block_of(node)[0]):
+                    c = g_.cond(b)
+                    if not c:
+                        continue
+                    ct = strip_cast(w.term(c, inline=True))
+                    if ct == N_:
+                        return not lab
+                    if ct[0] == 'op' and len(ct) == 4 and {strip_cast(ct[2]), strip_cast(ct[3])} == {N_, ('lit', 0)}:
+                        if ct[1] == '==':
+                            return lab
+                        if ct[1] in ('!=', '>'):
+                            return not lab
+                    if ct[0] == 'un' and ct[1] == '!' and strip_cast(ct[2]) == N_:
+                        return lab
+                return None
+            vals = {}
+            for x in fk:
+                z = n_is_zero(x)
+                vals[z] = strip_cast(w.term(w.n(x)['ch'][1], inline=True))
+            if None in vals:
+                fk_unknown = True
+            else:
+                okf = vals.get(True) == ('lit', 0) and vals.get(False) == ('deref', A_)
+        elif fk:
+            fk_unknown = True
         nn = [i for i in w.all_ids() if w.n(i)['c'] == 'BinaryOperator' and w.n(i)['op'] == '=' and w.term(w.n(i)['ch'][0], inline=False) == ('field', 'n', THIS)]
         okn = bool(nn) and strip_cast(w.term(w.n(nn[0])['ch'][1], inline=True)) == ('param', w.params[1]['name'])
         bc = w.calls_to('pgm::PGMIndex::build')
@@ -178,7 +214,8 @@ def rule_wrapper_ctor(ctx):
             okb = a[0] == A and a[1] == ('op', '+', A, N) and a[4] == ('field', 'segments', THIS) and a[5] == ('field', 'levels_offsets', THIS)
         ok = not missing and okf and okn and okb
         obs.append(Ob('WRAPPER-AGREE', w, 0, 'the wrapper constructor sets n, first_key (= n ? *a : 0), and builds segments/levels_offsets over [a, a+n) like PGMIndex(first, last)',
-                      f"fields never assigned: {missing}; first_key form: {okf}; n = n: {okn}; build(a, a+n, ., ., segments, levels_offsets): {okb}", OK if ok else VIOLATED, arm='ctor'))
+                      f"fields never assigned: {missing}; first_key form: {okf}; n = n: {okn}; build(a, a+n, ., ., segments, levels_offsets): {okb}",
+                      OK if ok else (UNDECIDED if (fk_unknown and not missing and okn and okb) else VIOLATED), arm='ctor'))
     return obs
 
 
